@@ -711,21 +711,199 @@ theorem parseLink_good (cfg : MdCfg) (hbr : 1 ≤ (cfg.rx "mistune.helpers._INLI
   · exact (by decide : PyErr.indexError ≠ PyErr.noProgress)
 
 
+/-! ### handlers of the plugins formatting, url, math, speedup, spoiler, ruby (`Mistune.Model.InlinePlugins`) -/
+
+theorem renderChildren_good {cfg : MdCfg} (R : Rec) (hR : RecOk cfg R) (child st : InlineState) (henv : child.env = st.env)
+    (hn : child.x.n ≤ child.x.s.size) (hab : AbbrOk cfg st.env) :
+    Good (fun res => Fr st res.2) (renderChildren R child st) := renderIn_good R hR child st henv hn hab
+
+theorem parseToEnd_good {cfg : MdCfg} (R : Rec) (hR : RecOk cfg R) (ty : String) (re : Rx) (m : RxMatch)
+    (st : InlineState) (hab : AbbrOk cfg st.env) : Good (IPost m st) (parseToEnd R ty re m st) := by
+  unfold parseToEnd
+  extract_lets pos
+  split
+  · exact Good.pure (IPost.none Fr.refl)
+  · rename_i m1 hm1
+    have hs := search_sound st.x re m.stop m1 hm1
+    extract_lets endPos text newState
+    refine Good.bind (renderChildren_good R hR newState st rfl (mkCtx_n_le _ _) hab) ?_
+    rintro ⟨children, st1⟩ h
+    exact Good.pure (IPost.stop (Fr.trans h ⟨rfl, rfl⟩) (by show m.stop ≤ m1.stop; omega))
+
+theorem parseScript_good {cfg : MdCfg} (R : Rec) (hR : RecOk cfg R) (ty : String) (m : RxMatch)
+    (st : InlineState) (hab : AbbrOk cfg st.env) : Good (IPost m st) (parseScript R ty m st) := by
+  unfold parseScript
+  extract_lets text newState
+  refine Good.bind (renderChildren_good R hR newState st rfl (mkCtx_n_le _ _) hab) ?_
+  rintro ⟨children, st1⟩ h
+  exact Good.pure (IPost.stop (Fr.trans h ⟨rfl, rfl⟩) (Nat.le_refl _))
+
+theorem parseInlineSpoiler_good (cfg : MdCfg) (R : Rec) (hR : RecOk cfg R) (m : RxMatch)
+    (st : InlineState) (hab : AbbrOk cfg st.env) : Good (IPost m st) (parseInlineSpoiler cfg R m st) := by
+  unfold parseInlineSpoiler
+  extract_lets text newState
+  refine Good.bind (renderChildren_good R hR newState st rfl (mkCtx_n_le _ _) hab) ?_
+  rintro ⟨children, st1⟩ h
+  exact Good.pure (IPost.stop (Fr.trans h ⟨rfl, rfl⟩) (Nat.le_refl _))
+
+theorem parseUrlLink_good (cfg : MdCfg) (m : RxMatch) (st : InlineState) (hab : AbbrOk cfg st.env) :
+    Good (IPost m st) (parseUrlLink cfg m st) := by
+  unfold parseUrlLink
+  extract_lets text pos
+  split
+  · refine Good.bind (processTextC_good cfg text st hab) (fun st' h => ?_)
+    exact Good.pure (IPost.stop h (Nat.le_refl _))
+  · refine Good.bind (escapeUrl_good cfg _) (fun u _ => ?_)
+    exact Good.pure (IPost.stop ⟨rfl, rfl⟩ (Nat.le_refl _))
+
+theorem parseInlineMath_good (cfg : MdCfg) (m : RxMatch) (st : InlineState) :
+    Good (IPost m st) (parseInlineMath cfg m st) := Good.ok (IPost.stop ⟨rfl, rfl⟩ (Nat.le_refl _))
+
+theorem parseText_good (cfg : MdCfg) (m : RxMatch) (st : InlineState) (hab : AbbrOk cfg st.env) :
+    Good (IPost m st) (parseText cfg m st) := by
+  unfold parseText
+  extract_lets text text2
+  refine Good.bind (processTextC_good cfg text2 st hab) (fun st' h => ?_)
+  exact Good.pure (IPost.stop h (Nat.le_refl _))
+
+theorem rubyTokens_good (g0 : Str) : Good (fun _ => True) (rubyTokens g0) := by
+  unfold rubyTokens
+  extract_lets text
+  generalize Py.splitOn [')'] text = items
+  induction items with
+  | nil => exact Good.ok trivial
+  | cons a l ih =>
+    rw [List.mapM_cons]
+    refine Good.bind (Q := fun _ => True) ?_ (fun t _ => Good.bind ih (fun ts _ => Good.pure trivial))
+    split
+    · exact Good.ok trivial
+    · exact Good.err (by decide)
+
+/-- the `while True` loop of `parse_ruby` ends: every further group consumes a character (`hre`), or there is no
+pattern at all and the loop ends at once -/
+theorem rubyLoop_good (cfg : MdCfg) (hre : rubyRe cfg = .fail ∨ 1 ≤ (rubyRe cfg).minLen) :
+    ∀ (fuel : Nat) (m : RxMatch) (st : InlineState), m.stop ≤ st.x.n → st.x.n - m.stop < fuel →
+      Good (fun res => Fr st res.2.2 ∧ m.stop ≤ res.2.1) (rubyLoop cfg fuel m st) := by
+  intro fuel
+  induction fuel with
+  | zero => intro m st _ h; omega
+  | succ fuel ih =>
+    intro m st hstop hfu
+    unfold rubyLoop
+    refine Good.bind (rubyTokens_good _) (fun tokens _ => ?_)
+    extract_lets endPos
+    split
+    · exact Good.pure ⟨Fr.refl, Nat.le_refl _⟩
+    · rename_i next hnext
+      have hmin : 1 ≤ (rubyRe cfg).minLen := by
+        rcases hre with hf | hm
+        · rw [hf] at hnext; simp [Rx.matchAt, Rx.m] at hnext
+        · exact hm
+      obtain ⟨h1, h2⟩ := matchAt_sound _ _ _ _ hnext
+      have h3 := minLen_sound _ _ _ _ _ _ h2
+      have h4 := (spec_bounds _ _ _ _ _ _ h2 hstop).2
+      have hfr := foldl_append_frame tokens st
+      have := ih next (tokens.foldl (fun s t => s.appendToken t) st) (by rw [hfr.1]; exact h4)
+        (by rw [hfr.1]; show st.x.n - next.stop < fuel; omega)
+      refine this.mono (fun res h => ⟨Fr.trans hfr h.1, ?_⟩)
+      have := h.2
+      show m.stop ≤ res.2.1
+      omega
+
+theorem parseRubyLink_good (cfg : MdCfg) (st : InlineState) (pos : Nat) (tokens : List Json) :
+    Good (fun res => Fr st res.2 ∧ ∀ p, res.1 = some p → pos ≤ p) (parseRubyLink cfg st pos tokens) := by
+  have hnone : Good (fun res => Fr st res.2 ∧ ∀ p, res.1 = some p → pos ≤ p) (pure (none, st) : HRes) :=
+    Good.pure ⟨Fr.refl, fun p h => by cases h⟩
+  unfold parseRubyLink
+  refine Good.bind (Q := fun _ => True) ?_ (fun c _ => ?_)
+  · unfold pyGetItem
+    extract_lets j
+    split
+    · exact Good.err (by decide)
+    · split
+      · exact Good.ok trivial
+      · exact Good.err (by decide)
+  · split
+    · refine Good.bind (parseLinkH_good cfg st.x (pos + 1)) (fun r hr => ?_)
+      split
+      · rename_i attrs linkPos
+        have := hr _ _ rfl
+        split
+        · exact Good.pure ⟨⟨rfl, rfl⟩, fun p h => by cases h; omega⟩
+        · exact hnone
+      · exact hnone
+    · split
+      · split
+        · rename_i label linkPos hl
+          have hlp : pos ≤ linkPos := by
+            unfold parseLinkLabel at hl
+            split at hl
+            · rename_i mm hmm
+              have := matchAt_stop_ge _ _ _ _ hmm
+              cases hl; omega
+            · cases hl
+          split
+          · extract_lets key env?
+            have hpost1 : ∀ t : Json, (Fr st (st.appendToken t)) := fun t => ⟨rfl, rfl⟩
+            have hpost2 : ∀ t : Json, Fr st ((tokens.foldl (fun s t => s.appendToken t) st).appendToken t) :=
+              fun t => Fr.trans (foldl_append_frame tokens st) ⟨rfl, rfl⟩
+            clear_value env? key
+            split
+            · split
+              · extract_lets +onlyGivenNames title jp
+                have hjp : ∀ url, Good (fun (res : Option Nat × InlineState) => Fr st res.2 ∧ ∀ p, res.1 = some p → pos ≤ p) (jp url) :=
+                  fun url => Good.pure ⟨hpost1 _, fun p h => by cases h; exact hlp⟩
+                clear_value jp
+                split
+                · simp only [pure_bind]; exact hjp _
+                · exact (by decide : PyErr.keyError ≠ PyErr.noProgress)
+              · exact Good.pure ⟨hpost2 _, fun p h => by cases h; exact hlp⟩
+            · exact Good.pure ⟨hpost2 _, fun p h => by cases h; exact hlp⟩
+          · exact hnone
+        · exact hnone
+      · exact hnone
+
+theorem parseRuby_good (cfg : MdCfg) (hre : rubyRe cfg = .fail ∨ 1 ≤ (rubyRe cfg).minLen) (m : RxMatch)
+    (st : InlineState) (hstop : m.stop ≤ st.x.n) (hn : st.x.n ≤ st.x.s.size) :
+    Good (IPost m st) (parseRuby cfg m st) := by
+  unfold parseRuby
+  refine Good.bind (rubyLoop_good cfg hre _ m st hstop (by show st.x.n - m.stop < st.x.s.size + 1; omega)) ?_
+  rintro ⟨tokens, endPos, st1⟩ ⟨h1, h2⟩
+  dsimp only at h1 h2 ⊢
+  have key : ∀ (e : HRes), Good (fun (res : Option Nat × InlineState) => Fr st1 res.2 ∧ ∀ p, res.1 = some p → endPos ≤ p) e →
+      Good (IPost m st) (e >>= fun x => if posTruthy x.fst = true then pure (x.fst, x.snd)
+        else pure (some endPos, List.foldl (fun s t => s.appendToken t) x.snd tokens)) := by
+    intro e he
+    refine Good.bind he ?_
+    rintro ⟨linkPos, st2⟩ ⟨h3, h4⟩
+    dsimp only at h3 h4 ⊢
+    split
+    · exact Good.pure ⟨Fr.trans h1 h3, fun p hp _ => by have := h4 p hp; omega⟩
+    · exact Good.pure (IPost.stop (Fr.trans h1 (Fr.trans h3 (foldl_append_frame tokens st2))) h2)
+  split
+  · exact key _ (parseRubyLink_good cfg st1 endPos tokens)
+  · exact key _ (Good.pure ⟨Fr.refl, fun p h => by cases h⟩)
+
+
 /-! ### dispatch, the scanner loop, induction on the nesting budget -/
 
 /-- **the decidable obligation on a configuration (inline side)**: every rule of `inline.specification` consumes at
-least one character, and so does `_INLINE_SQUARE_BRACKET_RE` (the loop of `parse_link_text`) -/
+least one character, and so do `_INLINE_SQUARE_BRACKET_RE` (the loop of `parse_link_text`) and `_ruby_re` (the loop
+over adjacent groups of `parse_ruby`; `.fail` when the tree has no such pattern) -/
 def ICfgOk (cfg : MdCfg) : Bool :=
-  rulesConsume cfg.inlineSpec && decide (1 ≤ (cfg.rx "mistune.helpers._INLINE_SQUARE_BRACKET_RE").minLen)
+  rulesConsume cfg.inlineSpec && decide (1 ≤ (cfg.rx "mistune.helpers._INLINE_SQUARE_BRACKET_RE").minLen) &&
+    (decide (rubyRe cfg = .fail) || decide (1 ≤ (rubyRe cfg).minLen))
 
 structure IFacts (cfg : MdCfg) : Prop where
   spec : ∀ n r, (n, r) ∈ cfg.inlineSpec → 1 ≤ r.minLen
   bracket : 1 ≤ (cfg.rx "mistune.helpers._INLINE_SQUARE_BRACKET_RE").minLen
+  /-- `_ruby_re` (the loop over adjacent groups in `parse_ruby`) consumes a character, or there is no such pattern -/
+  ruby : rubyRe cfg = .fail ∨ 1 ≤ (rubyRe cfg).minLen
 
 theorem iFacts_of_ok {cfg : MdCfg} (h : ICfgOk cfg = true) : IFacts cfg := by
   unfold ICfgOk rulesConsume at h
-  simp only [Bool.and_eq_true, decide_eq_true_eq, List.all_eq_true] at h
-  exact ⟨fun n r hm => h.1 _ hm, h.2⟩
+  simp only [Bool.and_eq_true, Bool.or_eq_true, decide_eq_true_eq, List.all_eq_true] at h
+  exact ⟨fun n r hm => h.1.1 _ hm, h.1.2, h.2⟩
 
 /-- every handler bound by `parseMethod` satisfies the contract -/
 theorem parseMethod_good (cfg : MdCfg) (hf : IFacts cfg) (R : Rec) (hR : RecOk cfg R) (name : String) (m : RxMatch)
@@ -748,6 +926,13 @@ theorem parseMethod_good (cfg : MdCfg) (hf : IFacts cfg) (R : Rec) (hR : RecOk c
     | exact parseLinebreak_good m st
     | exact parseSoftbreak_good m st
     | exact parseInlineFootnote_good cfg m st
+    | exact parseToEnd_good R hR _ _ m st hab                                  -- strikethrough, mark, insert
+    | exact parseScript_good R hR _ m st hab                                   -- superscript, subscript
+    | exact parseUrlLink_good cfg m st hab
+    | exact parseInlineMath_good cfg m st
+    | exact parseText_good cfg m st hab
+    | exact parseRuby_good cfg hf.ruby m st hstop hn
+    | exact parseInlineSpoiler_good cfg R hR m st hab
 
 theorem parseLoop_good (cfg : MdCfg) (hf : IFacts cfg) (R : Rec) (hR : RecOk cfg R) (sc : List (String × Rx))
     (hsc : ∀ p ∈ sc, p ∈ cfg.inlineSpec) :
